@@ -54,6 +54,7 @@ class Stats:
         self.max_decisions = 0
         self.samples = []
         self.violations = []   # (label, concretised inputs), recorded by harness.common.check
+        self.cover = set()     # harness-defined coverage items (e.g. Automat (machine, state, input) rows exercised)
 
     def merge(self, o):
         self.paths += o.paths
@@ -64,6 +65,7 @@ class Stats:
         self.discharged += o.discharged
         self.trivial += o.trivial
         self.max_decisions = max(self.max_decisions, o.max_decisions)
+        self.cover |= getattr(o, "cover", set())
         for k, v in o.outcomes.items():
             self.outcomes[k] = self.outcomes.get(k, 0) + v
         for s in o.samples:
